@@ -20,9 +20,15 @@ Import ListNotations.
 
 Record mode := { fix1 : bool; fix7 : bool; memo : bool;
                  fixd : bool;      (* a directive's coercion error is reported once per operation *)
-                 fullkey : bool }. (* the memo key of collectFields is the code's: EVERY selection's position *)
-Definition fixed : mode := {| fix1 := true; fix7 := true; memo := true; fixd := true; fullkey := true |}.
-Definition fixed_nomemo : mode := {| fix1 := true; fix7 := true; memo := false; fixd := true; fullkey := true |}.
+                 fullkey : bool;   (* the memo key of collectFields is the code's: EVERY selection's position *)
+                 report : bool }.  (* collectFields reports the directives it cannot evaluate (the code does;
+                                      [false] only as a proof device: the same executor, silent about them) *)
+Definition fixed : mode :=
+  {| fix1 := true; fix7 := true; memo := true; fixd := true; fullkey := true; report := true |}.
+Definition fixed_nomemo : mode :=
+  {| fix1 := true; fix7 := true; memo := false; fixd := true; fullkey := true; report := true |}.
+Definition silent_nomemo : mode :=
+  {| fix1 := true; fix7 := true; memo := false; fixd := true; fullkey := true; report := false |}.
 
 (** ** grouped_field_set.go *)
 Record group := { g_key : name; g_first : fnode; g_more : list fnode }.          (* Fields is never empty *)
@@ -295,7 +301,7 @@ Section Exec.
       | None =>
           match collect_impl S D E fuel ot sels [] [] with
           | COk _ g =>
-              let st' := report_errs (fixd M) (snd (collect_errs S D E fuel ot sels [])) st in
+              let st' := report_errs (fixd M) (if report M then snd (collect_errs S D E fuel ot sels []) else []) st in
               (CFOk g, {| st_errs := st_errs st'; st_cache := (key, g) :: st_cache st' |})
           | CPanic => (CFPanic, st)
           | COutOfFuel => (CFOutOfFuel, st)
@@ -303,7 +309,7 @@ Section Exec.
       end
     else
       match collect_impl S D E fuel ot sels [] [] with
-      | COk _ g => (CFOk g, report_errs (fixd M) (snd (collect_errs S D E fuel ot sels [])) st)
+      | COk _ g => (CFOk g, report_errs (fixd M) (if report M then snd (collect_errs S D E fuel ot sels []) else []) st)
       | CPanic => (CFPanic, st)
       | COutOfFuel => (CFOutOfFuel, st)
       end.
